@@ -3,6 +3,9 @@ package main
 import (
 	"bytes"
 	"fmt"
+	"github.com/uhppoted/uhppote-core/types"
+	"net"
+	"net/netip"
 	"os"
 	"os/exec"
 	"regexp"
@@ -314,5 +317,63 @@ func runNetRace(o Opts) error {
 		}()
 		wg.Wait()
 	}
+	// any two operations may overlap: 8 goroutines x random operations of all kinds on ONE client, through a stateless
+	// in-process driver (no sockets, so the only shared state is the library's own)
+	{
+		u := uhppote.NewWithDriver(types.BindAddrFrom(netip.IPv4Unspecified(), 0), types.BroadcastAddr{}, types.ListenAddrFrom(netip.IPv4Unspecified(), 60001),
+			100*time.Millisecond, []uhppote.Device{{DeviceID: 405419896, Address: types.ControllerAddr{AddrPort: netip.MustParseAddrPort("10.0.0.1:60000")}, Protocol: "udp", Doors: []string{"a", "b", "c", "d"}},
+				{DeviceID: 303986753, Address: types.ControllerAddr{AddrPort: netip.MustParseAddrPort("10.0.0.2:60000")}, Protocol: "tcp"}}, false,
+			func(uhppote.Driver) uhppote.Driver { return statelessDriver{} })
+		noLastValue = true // the harness's own bookkeeping global must not race
+		var wg sync.WaitGroup
+		per := 150
+		if o.Tier == "thorough" {
+			per = 3000
+		}
+		for g := 0; g < 8; g++ {
+			wg.Add(1)
+			rg := NewRand(o.Seed+uint64(g), "NETRACE-ops")
+			go func() {
+				defer wg.Done()
+				for i := 0; i < per; i++ {
+					id := []uint32{405419896, 303986753, 201020304}[rg.Intn(3)]
+					oc := genOp(rg, rg.Intn(nOps), id, false)
+					func() {
+						defer func() { recover() }()
+						oc.Run(u)
+					}()
+					if i%40 == 0 {
+						u.GetDevices()
+						u.DeviceList()
+					}
+				}
+			}()
+		}
+		wg.Wait()
+	}
+	return nil
+}
+
+// replies computed from the request alone: safe to call from any number of goroutines
+type statelessDriver struct{}
+
+func (statelessDriver) Broadcast(addr *net.UDPAddr, req []byte) ([][]byte, error) {
+	return [][]byte{farmReply(req), farmReply(req)}, nil
+}
+func (statelessDriver) BroadcastTo(addr *net.UDPAddr, req []byte, cb func([]byte) bool) ([]byte, error) {
+	r := farmReply(req)
+	if cb(r) {
+		return r, nil
+	}
+	return nil, fmt.Errorf("timeout")
+}
+func (statelessDriver) SendUDP(addr *net.UDPAddr, req []byte) ([]byte, error) {
+	return farmReply(req), nil
+}
+func (statelessDriver) SendTCP(addr *net.TCPAddr, req []byte) ([]byte, error) {
+	return farmReply(req), nil
+}
+func (statelessDriver) Listen(signal chan any, done chan any, cb func([]byte)) error {
+	go func() { <-signal; close(done) }()
 	return nil
 }
